@@ -625,60 +625,19 @@ func (m *collection) snapshot(skip uint32, cb func(*segmentStack),
 	return rv, heightClean, heightDirtyBase, heightDirtyMid, heightDirtyTop
 }
 
-// get() retrieves a value by iterating over all the segment stacks,
-// and then the lower level snapshot of the collection in pursuit of
-// the key, if not found, a nil val is returned.
+// get() retrieves a value through a (cached, when possible) snapshot of
+// the collection, so that it sees exactly what Snapshot.Get() sees: a
+// deletion or a merge in a newer section shadows the older sections
+// and the lower level.  If not found, a nil val is returned.
 func (m *collection) get(key []byte, readOptions ReadOptions) ([]byte, error) {
-	// Create a pointer to the lower level snapshot by incrementing it's ref
-	// count and then pointers to stackClean, stackDirtyBase, stackDirtyMid
-	// and stackDirtyTop for the collection within lock.
-	m.m.Lock()
-
-	lowerLevelSnapshot := m.lowerLevelSnapshot.addRef()
-	stackClean := m.stackClean
-	stackDirtyBase := m.stackDirtyBase
-	stackDirtyMid := m.stackDirtyMid
-	stackDirtyTop := m.stackDirtyTop
-
-	m.m.Unlock()
-
-	var val []byte
-	var err error
-
-	// Avoid going to the lower-level snapshot for the
-	// stackDirtyTop/Mid/Base/Clean Get()s since their lower level
-	// snapshots may be modified concurrently by
-	// collection_merger/persister.
-	readOptionsSLL := readOptions
-	readOptionsSLL.SkipLowerLevel = true
-
-	// Look for the key-value in the collection's segment stacks
-	// starting with the latest (stackDirtyTop), followed by
-	// stackDirtyMid, stackDirtyBase, stackClean, and if still not
-	// found look for it in the lowerLevelSnapshot.
-	if stackDirtyTop != nil {
-		val, err = stackDirtyTop.Get(key, readOptionsSLL)
+	ss, err := m.Snapshot()
+	if err != nil {
+		return nil, err
 	}
 
-	if val == nil && err == nil && stackDirtyMid != nil {
-		val, err = stackDirtyMid.Get(key, readOptionsSLL)
-	}
+	val, err := ss.Get(key, readOptions)
 
-	if val == nil && err == nil && stackDirtyBase != nil {
-		val, err = stackDirtyBase.Get(key, readOptionsSLL)
-	}
-
-	if val == nil && err == nil && stackClean != nil {
-		val, err = stackClean.Get(key, readOptionsSLL)
-	}
-
-	if lowerLevelSnapshot != nil {
-		if val == nil && err == nil {
-			val, err = lowerLevelSnapshot.Get(key, readOptions)
-		}
-
-		lowerLevelSnapshot.decRef()
-	}
+	ss.Close()
 
 	return val, err
 }
